@@ -11,14 +11,14 @@ CTYPE = {
     'u32': 'uint32_t', 'i32': 'int32_t', 'u64': 'uint64_t', 'sz': 'std::size_t', 'float': 'float',
     'double': 'double', 'cptr': 'const int*', 'E8': 'vf::E8', 'E32': 'vf::E32', 'B3': 'vf::B3', 'B5': 'vf::B5',
     'B12': 'vf::B12', 'B24': 'vf::B24', 'Tracked': 'vf::Tracked', 'TrackedMO': 'vf::TrackedMO',
-    'string': 'std::string', 'uptr': 'std::unique_ptr<int>',
+    'string': 'std::string', 'uptr': 'std::unique_ptr<int>', 'SelfRef': 'vf::SelfRef', 'Handle': 'vf::Handle',
 }
 SIZEOF = {'u8': 1, 'i8': 1, 'char': 1, 'byte': 1, 'bool': 1, 'u16': 2, 'u32': 4, 'i32': 4, 'u64': 8, 'sz': 8,
           'float': 4, 'double': 8, 'cptr': 8, 'E8': 1, 'E32': 4, 'B3': 3, 'B5': 5, 'B12': 12, 'B24': 24,
-          'Tracked': 16, 'TrackedMO': 16, 'string': 32, 'uptr': 8}
+          'Tracked': 16, 'TrackedMO': 16, 'string': 32, 'uptr': 8, 'SelfRef': 16, 'Handle': 8}
 TRIVIAL = {'u8', 'i8', 'char', 'byte', 'bool', 'u16', 'u32', 'i32', 'u64', 'sz', 'float', 'double', 'cptr', 'E8',
-           'E32', 'B3', 'B5', 'B12', 'B24'}
-MOVE_ONLY = {'TrackedMO', 'uptr'}
+           'E32', 'B3', 'B5', 'B12', 'B24', 'Handle'}
+MOVE_ONLY = {'TrackedMO', 'uptr', 'Handle'}
 COUNT_TYPES = ['u8', 'u16', 'u32', 'sz']
 # types for which the library's memcmp fast paths apply (integral, byte, pointer)
 MEMCMP_EQ = {'u8', 'i8', 'char', 'byte', 'bool', 'u16', 'u32', 'i32', 'u64', 'sz', 'cptr'}
@@ -166,6 +166,21 @@ def core_pool():
     c.append(make([p('char'), f('u16', 2), p('u64', 8)], tags={'layout', 'fixedlayout'}))
     c.append(make([p('u16', 8), p('u64', 8)], tags={'layout', 'fixedlayout', 'memcmp'}))
     c.append(make([f('u16', 4), p('u32', 4)], tags={'layout', 'fixedlayout', 'memcmp'}))
+    # trivially destructible but not trivially relocatable (self pointer), and move-only but trivially movable types:
+    # the conditions that choose bytewise relocation / copy vs. move paths treat them differently from std::string
+    c.append(make([p('u8'), v('SelfRef')], tags={'nontrivial', 'lowalign', 'selfref'}))
+    c.append(make([f('SelfRef'), p('u16')], tags={'nontrivial', 'selfref'}))
+    c.append(make([p('SelfRef', 8), p('u8'), v('u16')], tags={'nontrivial', 'layout', 'alignedfirst', 'selfref'}))
+    c.append(make([p('Handle'), p('i32')], tags={'moveonly', 'plain', 'handle'}))
+    c.append(make([p('Handle'), p('string')], tags={'moveonly', 'nontrivial', 'plain', 'handle'}))
+    c.append(make([p('u8'), v('Handle'), f('Tracked')], tags={'moveonly', 'nontrivial', 'tracked', 'lowalign', 'handle'}))
+    # an odd-sized aligned type as the last plain parameter (the stride must still be padded to the alignment), and an
+    # 8-byte type with a smaller alignment in front of a more aligned one
+    c.append(make([p('u32', 8), p('B12', 8)], tags={'layout', 'fixedlayout'}))
+    c.append(make([f('u16'), p('B24', 16)], tags={'layout', 'fixedlayout'}))
+    c.append(make([p('u8'), p('B3', 2)], tags={'layout', 'fixedlayout'}))
+    c.append(make([p('u32', 16), p('double', 4), p('u64', 8)], tags={'layout', 'fixedlayout'}))
+    c.append(make([p('u32', 8), p('u8'), v('u64', 8), p('u32', 4), p('double', 4)], tags={'layout', 'risky'}))
     c.append(make([p('u32'), v('double', 8), p('u32')], tags={'layout', 'risky'}))
     c.append(make([p('u32'), v('float'), f('double', 8)], tags={'layout', 'risky'}))
     return c
@@ -210,8 +225,8 @@ def allocator_pool():
 # random lists from the grammar
 # ---------------------------------------------------------------------------------------------------------------
 TRIV_POOL = ['u8', 'i8', 'char', 'byte', 'bool', 'u16', 'u32', 'i32', 'u64', 'float', 'double', 'cptr', 'E8', 'E32',
-             'B3', 'B5', 'B12', 'B24']
-NONTRIV_POOL = ['Tracked', 'Tracked', 'TrackedMO', 'string', 'uptr']
+             'B3', 'B5', 'B12', 'B24', 'Handle']
+NONTRIV_POOL = ['Tracked', 'Tracked', 'TrackedMO', 'string', 'uptr', 'SelfRef']
 ALIGNS = [2, 4, 8, 16, 32, 64]
 
 
